@@ -298,6 +298,13 @@ Definition layout_okb (fs : FS) : bool :=
   | None => false
   end.
 
+(* initialisation attempted repeatedly: every oci.New but the last is cut at ks[i] *)
+Fixpoint init_attempts (layout_inplace : bool) (ks : list nat) (fs : FS) (c : nat) : FS * nat :=
+  match ks with
+  | [] => (fs, c)
+  | k :: r => init_attempts layout_inplace r (apply (firstn k (new_steps layout_inplace fs c)) fs) (S c)
+  end.
+
 (* New does not fail on this directory: what exists parses *)
 Definition new_okb (fs : FS) : bool :=
   (negb (exists_file fs FLayout) || layout_okb fs) &&
